@@ -36,6 +36,7 @@ THEOREMS = [
     "C16_reverse_complement_geometry",
     "C16_reverse_refuted",
     "C16_reverse_partial",
+    "C16_reverse_setMaterial",
     "C16_universe_unique",
     "C16_universe_partial",
     "C16_universe_refuted",
@@ -43,6 +44,11 @@ THEOREMS = [
     "C16_linked_blank",
     "C16_linked_step",
     "C16_linked",
+    "C16_load",
+    "C16_load_contain",
+    "C16_children",
+    "C16_children_geometry",
+    "C16_children_conflict",
 ]
 
 KINDS = links.KINDS
